@@ -1,3 +1,4 @@
 /- C01: the per-event theorems (Props/C01.lean) and their applicability to every reachable session state (Props/C01b.lean). -/
 import Yabgp.Props.C01
 import Yabgp.Props.C01b
+import Yabgp.Props.C01c
